@@ -88,6 +88,32 @@ class ConnDesign(Elaboratable):
             for i, c in enumerate(conns):
                 self.obs += [(f"c{i}.read.run", c.read.run), (f"c{i}.write.run", c.write.run)]
             self.obs.append(("res", res))
+        elif cfg["kind"] == "dead":
+            # Connect halves that nobody calls: everything simultaneous with them (transitively) can never run.
+            # shape "mixed": W writes c0 (c0.read uncalled) and c1; W2 writes c1; R reads c1.
+            # shape "open": SRC -c0-> S1 -c1-> ... -c(n-1)-> (no reader); "rev": the Connects are created last-first
+            n = 2 if cfg["shape"] == "mixed" else cfg["n"]
+            order = list(range(n))[::-1] if cfg.get("rev") else list(range(n))
+            conns = {}
+            for i in order:
+                conns[i] = Connect([("d", 1)])
+                m.submodules[f"c{i}"] = conns[i]
+            if cfg["shape"] == "mixed":
+                plan = [("W", [0, 1], None), ("W2", [1], None), ("R", [], 1)]
+            else:
+                plan = [(f"S{k}", [k], (k - 1) if k else None) for k in range(n)]
+            for k, (name, writes, reads) in enumerate(plan):
+                rdy = self.sig(f"rdy{k}")
+                arg = self.sig(f"arg{k}")
+                t = Transaction(name=name)
+                with t.body(m, ready=rdy):
+                    d = arg if reads is None else (conns[reads].read(m).d ^ arg)
+                    for w in writes:
+                        conns[w].write(m, d=d)
+                self.obs.append((f"run{k}", t.run))
+            for i in range(n):
+                self.obs += [(f"c{i}.read.run", conns[i].read.run), (f"c{i}.write.run", conns[i].write.run)]
+            self.nconn, self.plan = n, plan
         elif cfg["kind"] == "simg":
             self.elab_simg(m, cfg)
         else:
@@ -238,6 +264,24 @@ class ConnH(CondH):
             if cfg.get("third") and O["run2"] and O["run0"]:
                 V.append("simultaneous.conflict: S2 shares X0 with S0 but both run")
             return V, ()
+        if cfg["kind"] == "dead":
+            d = self.d
+            for i in range(d.nconn):
+                if O[f"c{i}.read.run"] != O[f"c{i}.write.run"]:
+                    V.append(f"connect.together: connect {i}: read.run={O[f'c{i}.read.run']} write.run={O[f'c{i}.write.run']}")
+                wr = [k for k, (_, writes, _) in enumerate(d.plan) if i in writes and O[f"run{k}"]]
+                rd = [k for k, (_, _, reads) in enumerate(d.plan) if reads == i and O[f"run{k}"]]
+                if len(wr) != O[f"c{i}.write.run"] or len(rd) != O[f"c{i}.read.run"]:
+                    V.append(f"connect.run: connect {i}: write.run={O[f'c{i}.write.run']} with writers {wr}, "
+                             f"read.run={O[f'c{i}.read.run']} with readers {rd}")
+            for k in range(len(d.plan)):
+                if O[f"run{k}"] and not I[f"rdy{k}"]:
+                    V.append(f"caller.enabled: {d.plan[k][0]} runs while not ready")
+            if any(O[f"run{k}"] for k in range(len(d.plan))):
+                self.count("nt_pair_runs")
+            elif any(I[f"rdy{k}"] for k in range(len(d.plan))):
+                self.count("nt_one_side_blocked")
+            return V, ()
         if cfg["kind"] == "simg":
             shape = cfg["shape"]
             if shape in ("tt3", "alt"):
@@ -373,6 +417,11 @@ def jobs(tier):
                 js.append(E1("checks.c13", "ConnH", {"kind": "chain", "n": n, "zmask": zmask, "znx": znx}, replay_cap=2))
     js.append(E1("checks.c13", "ConnH", {"kind": "sim"}, replay_cap=2))
     js.append(E1("checks.c13", "ConnH", {"kind": "sim", "third": True}, replay_cap=2))
+    # Connect halves nobody calls (everything simultaneous with them is dead), next to live pairs
+    for rev in (False, True):
+        js.append(E1("checks.c13", "ConnH", {"kind": "dead", "shape": "mixed", "rev": rev}, replay_cap=2))
+        for n in (1, 2, 3):
+            js.append(E1("checks.c13", "ConnH", {"kind": "dead", "shape": "open", "n": n, "rev": rev}, replay_cap=2))
     # user-declared simultaneity: groups of three, alternatives, two data-exchanging methods, transaction + method
     js.append(E1("checks.c13", "ConnH", {"kind": "simg", "shape": "tt3"}, replay_cap=2))
     js.append(E1("checks.c13", "ConnH", {"kind": "simg", "shape": "tt3", "star": True}, replay_cap=2))
